@@ -2295,7 +2295,10 @@ impl<'store> AnnotationStore {
                     unreachable!("unknown query type");
                 }
             } else {
-                unreachable!("mutable query must have subquery");
+                Err(StamError::QuerySyntaxError(
+                    format!("ADD and DELETE queries must have a subquery"),
+                    "",
+                ))
             }
         }
     }
